@@ -44,8 +44,13 @@ def worker_env(env_spec):
   return env
 
 
-def run_tasks(tasks, base_spec, workdir, nproc):
-  """Runs tasks as subprocesses, at most nproc at a time."""
+def run_tasks(tasks, base_spec, workdir, nproc, hard_limit_s=None):
+  """Runs tasks as subprocesses, at most nproc at a time.
+
+  A worker that exceeds hard_limit_s (several times its exploration budget: a
+  hang, e.g. a deadlocked collective) is killed; that is a harness error
+  ("inconclusive"), never a violation by itself.
+  """
   pending = list(enumerate(tasks))
   running = []
   results = [None] * len(tasks)
@@ -63,12 +68,19 @@ def run_tasks(tasks, base_spec, workdir, nproc):
       p = subprocess.Popen(
           [sys.executable, "-m", "vp.worker", tpath, opath],
           env=worker_env(spec), cwd=core.VERIF_DIR, stdout=subprocess.DEVNULL, stderr=ef)
-      running.append((i, p, opath, epath, ef))
+      running.append((i, p, opath, epath, ef, time.time()))
     time.sleep(0.05)
     still = []
-    for (i, p, opath, epath, ef) in running:
+    for (i, p, opath, epath, ef, started) in running:
       if p.poll() is None:
-        still.append((i, p, opath, epath, ef))
+        if hard_limit_s is not None and time.time() - started > hard_limit_s:
+          p.kill()
+          p.wait()
+          ef.close()
+          results[i] = {"fatal": f"worker exceeded the hard time limit of {hard_limit_s:.0f}s and was killed "
+                                 f"(task {tasks[i].get('shard', {}).get('name')})", "task": tasks[i], "timeout": True}
+          continue
+        still.append((i, p, opath, epath, ef, started))
         continue
       ef.close()
       if os.path.exists(opath):
@@ -160,7 +172,8 @@ def main(argv):
             "budget_s": budget,
             "shrink_s": getattr(mod, "SHRINK_S", {"quick": 45, "thorough": 240})[tier],
         })
-  results = run_tasks(tasks, env, workdir, NPROC)
+  hard_limit = 4 * budget + 3 * getattr(mod, "SHRINK_S", {"quick": 45, "thorough": 240})[tier] + 240
+  results = run_tasks(tasks, env, workdir, NPROC, hard_limit_s=hard_limit)
 
   # ---- aggregate
   fatal = [r for r in results if r is None or "fatal" in r]
